@@ -52,7 +52,9 @@ type lcReq struct {
 	FinalBranch  string     `json:"finalBranch"`
 	Seen         int        `json:"seen"`
 	SawJail      bool       `json:"sawJail"`
-	Jail         bool       `json:"jail"`
+	Jail         string     `json:"jail"` // "no" | "short" | "long"
+	Look         bool       `json:"look"`
+	Wait         int        `json:"wait"` // ticks of real time before this request
 }
 
 type lcBehaviour struct {
@@ -89,7 +91,9 @@ type lcObsReq struct {
 	KnowAfter    bool     `json:"knowAfter"`
 	StoredAfter  bool     `json:"storedAfter"`
 	Seen         int      `json:"seen"`     // rate counter value the request logged, -1 = unknown
-	Jail         bool     `json:"jail"`     // the request puts the client into the penalty box
+	Jail         string   `json:"jail"`     // what the request does to the penalty box: "no" | "short" | "long"
+	Look         bool     `json:"look"`     // the request looks whether the client is in the box
+	Wait         int      `json:"wait"`     // ticks of real time the harness let pass before the request
 	JailSeen     int      `json:"jailSeen"` // 1/0: the request found the client in the penalty box, -1 = unknown
 	StartSeq     int      `json:"startSeq"` // concurrent traces: global sequence numbers of start / end
 	EndSeq       int      `json:"endSeq"`
@@ -100,6 +104,10 @@ type lcObsTrace struct {
 	Concurrent bool       `json:"concurrent"`
 	Reqs       []lcObsReq `json:"reqs"`
 }
+
+// one tick of the specification's clock in real time; ShortTTL of the timed configurations (spec/LifecycleTimed*.cfg)
+const lcTickMs = 150
+const lcShortTTL = 5
 
 var lcSubs = []string{"recv", "hash", "hit", "miss", "pass", "fetch", "error", "deliver", "log"}
 
@@ -119,6 +127,8 @@ func lcStmt(b string) string {
 		return "set obj.ttl = 1ms;"
 	case "ttl0":
 		return "set beresp.ttl = 0s;"
+	case "shortttl":
+		return fmt.Sprintf("set beresp.ttl = %dms;", lcShortTTL*lcTickMs)
 	case "uncacheable":
 		return "set beresp.cacheable = false;"
 	default:
@@ -141,13 +151,21 @@ func lcProgram(b lcBehaviour, backend string, style func(k int) int) string {
 		}
 		fmt.Fprintf(&sb, "sub vcl_%s {\n  log \"s:%s:\" req.restarts;\n", s, s)
 		if s == "hit" {
-			// ctx.ObjectTTL survives a restart; reset it so that only this visit's "expire" arm shortens a lifetime
-			sb.WriteString("  set obj.ttl = 0s;\n")
+			// ctx.ObjectTTL survives a restart: after an "expire" arm (obj.ttl = 1ms) every later visit of vcl_hit in the
+			// same request would shorten the lifetime of whatever object it hit; reset it on those visits only
+			for n, r := range b.Reqs {
+				for _, c := range r.Prog {
+					if c.Sub == "hit" && c.Beh == "expire" {
+						fmt.Fprintf(&sb, "  if (req.http.X-Req == \"%d\" && req.restarts > %d) { set obj.ttl = 0s; }\n", n+1, c.At)
+					}
+				}
+			}
 		}
 		if s == "recv" {
 			// shared state that outlives a request: the n-th request served sees n
 			sb.WriteString("  if (req.restarts == 0) { set req.http.X-Count = ratelimit.ratecounter_increment(rc, \"k\", 1); log \"count:\" req.http.X-Count; }\n")
-			sb.WriteString("  if (req.restarts == 0) { if (ratelimit.penaltybox_has(pb, \"k\")) { log \"jail:1\"; } else { log \"jail:0\"; } if (req.http.X-Jail == \"1\") { ratelimit.penaltybox_add(pb, \"k\", 10m); } }\n")
+			sb.WriteString("  if (req.restarts == 0) {\n    if (req.http.X-Look == \"1\") { if (ratelimit.penaltybox_has(pb, \"k\")) { log \"jail:1\"; } else { log \"jail:0\"; } }\n")
+			fmt.Fprintf(&sb, "    if (req.http.X-Jail == \"long\") { ratelimit.penaltybox_add(pb, \"k\", 10m); }\n    if (req.http.X-Jail == \"short\") { ratelimit.penaltybox_add(pb, \"k\", %dms); }\n  }\n", lcShortTTL*lcTickMs)
 		}
 		if s == "hash" {
 			// a cache key may also be told apart by a request header that vcl_hash adds to the hash
@@ -200,7 +218,7 @@ type lcReport struct {
 	} `json:"client_response"`
 }
 
-func lcServe(ip *interpreter.Interpreter, u string, vary string, jail bool, n int, status int) (rep lcReport, code int, crashed string) {
+func lcServe(ip *interpreter.Interpreter, u string, vary string, jail string, look bool, n int, status int) (rep lcReport, code int, crashed string) {
 	defer func() {
 		if r := recover(); r != nil {
 			crashed = fmt.Sprint(r)
@@ -213,8 +231,11 @@ func lcServe(ip *interpreter.Interpreter, u string, vary string, jail bool, n in
 	if vary != "" {
 		req.Header.Set("X-Vary", vary)
 	}
-	if jail {
-		req.Header.Set("X-Jail", "1")
+	if jail != "" && jail != "no" {
+		req.Header.Set("X-Jail", jail)
+	}
+	if look {
+		req.Header.Set("X-Look", "1")
 	}
 	ip.ServeHTTP(rec, req)
 	res := rec.Result()
@@ -306,7 +327,36 @@ func c06Replay(args []string) int {
 		obs := lcObsTrace{ID: id}
 		hashes := map[string]string{}
 		var keyParts []string
+		// timed histories: the specification's clock advances by r.Wait ticks before request k; the harness sleeps
+		// that long and stops the history (keeping the prefix) if real time ran more than 200ms ahead of the plan -
+		// the margins between every reachable age and ShortTTL are at least 300ms (spec/LifecycleTimed*.cfg)
+		timed := false
+		for _, r := range b.Reqs {
+			if r.Wait > 0 || r.Jail == "short" {
+				timed = true
+			}
+			for _, c := range r.Prog {
+				if c.Beh == "shortttl" {
+					timed = true
+				}
+			}
+		}
+		t0 := time.Now()
+		planned := time.Duration(0)
 		for k, r := range b.Reqs {
+			if k > 0 {
+				// objects stored by the previous request are "old" (entry time more than 1ms ago) for this one
+				w := time.Duration(r.Wait) * lcTickMs * time.Millisecond
+				planned += w
+				if w < 2*time.Millisecond {
+					w = 2 * time.Millisecond
+				}
+				time.Sleep(w)
+			}
+			if timed && time.Since(t0)-planned > 200*time.Millisecond {
+				res.Drift = append(res.Drift, map[string]any{"obs": "timing", "detail": "real time ran ahead of the plan; history cut", "at_req": k + 1})
+				break
+			}
 			// cache key -> (URL, X-Vary): either distinct URLs or one URL told apart by the header vcl_hash adds
 			path, vary := r.URL, ""
 			if !*plain && b.defines("hash") && (seed+int64(n))%2 == 1 {
@@ -317,7 +367,7 @@ func c06Replay(args []string) int {
 			if known {
 				before = ip.VerifCacheFresh(hash)
 			}
-			rep, code, crashed := lcServe(ip, path, vary, r.Jail, k+1, r.Status)
+			rep, code, crashed := lcServe(ip, path, vary, r.Jail, r.Look, k+1, r.Status)
 			rec := ip.VerifRecord()
 			if rec.Hash != "" {
 				if known && rec.Hash != hash {
@@ -327,7 +377,7 @@ func c06Replay(args []string) int {
 				hashes[r.URL] = hash
 			}
 			o := lcObsReq{URL: r.URL, Status: r.Status, Exact: true, KnowBefore: true, StoredBefore: before,
-				Defined: rec.Defined, KnowAfter: hash != "", Jail: r.Jail, JailSeen: -1}
+				Defined: rec.Defined, KnowAfter: hash != "", Jail: r.Jail, Look: r.Look, Wait: r.Wait, JailSeen: -1}
 			var got []string
 			for _, f := range rep.Flows {
 				if strings.HasPrefix(f.Subroutine, "vcl_") {
@@ -422,10 +472,6 @@ func c06Replay(args []string) int {
 			if crashed != "" {
 				break
 			}
-			// objects stored by this request are "old" (entry time more than 1ms ago) for the next one
-			if k+1 < len(b.Reqs) {
-				time.Sleep(2 * time.Millisecond)
-			}
 		}
 		res.Key = strings.Join(keyParts, " | ")
 		res.Observed = obs
@@ -507,7 +553,7 @@ func c06H1(args []string) int {
 			}
 			q := lcObsReq{URL: u, Status: 0, Exact: false, KnowBefore: false, Flows: r.Flows, Acts: []string{},
 				Defined: r.Defined, Restarts: r.Restarts, XCache: r.XCache, Cached: r.Cached,
-				KnowAfter: r.Hash != "", StoredAfter: r.StoredAfter, Seen: -1, JailSeen: -1}
+				KnowAfter: r.Hash != "", StoredAfter: r.StoredAfter, Seen: -1, JailSeen: -1, Jail: "no"}
 			if q.Flows == nil {
 				q.Flows = []string{}
 			}
